@@ -357,6 +357,56 @@ K('polygon2d_read_is_clockwise', POLY + 'is_clockwise', [p('s', PC)], 'Tup B Pol
 K('polygon2d_copy', POLY + '__copy__', [p('s', PC)], 'Poly2C', 'Cache', ['C03', 'C13'])
 
 
+
+# ------------------------------------------------------------------ mesh face kernels
+T3_2 = ('verts', 'Tup V2 V2 V2', ('Point2D', 'Point2D', 'Point2D'), None)
+T4_2 = ('verts', 'Tup V2 V2 V2 V2', ('Point2D',) * 4, 'convexquad')
+T3_3 = ('pts', 'Tup V3 V3 V3', ('Point3D', 'Point3D', 'Point3D'), None)
+T4_3 = ('pts', 'Tup V3 V3 V3 V3', ('Point3D',) * 4, 'convexquad')
+M2 = 'geometry2d.mesh:Mesh2D.'
+M3 = 'geometry3d.mesh:Mesh3D.'
+K('mesh2d_get_area_tri', M2 + '_get_area', [T3_2], 'S', 'Mesh', ['C01', 'C16'])
+K('mesh2d_get_area_quad', M2 + '_get_area', [T4_2], 'S', 'Mesh', ['C01', 'C16'])
+K('mesh2d_tri_centroid', M2 + '_tri_centroid', [T3_2], 'V2', 'Mesh', ['C01', 'C16'])
+K('mesh2d_face_center_tri', M2 + '_face_center', [T3_2], 'V2', 'Mesh', ['C20'])
+K('mesh2d_face_center_quad', M2 + '_face_center', [T4_2], 'V2', 'Mesh', ['C20'])
+K('mesh3d_normal_area_tri', M3 + '_calculate_normal_and_area_for_triangle', [T3_3],
+  'Tup V3 S', 'Mesh', ['C01', 'C16'])
+K('mesh3d_normal_area_quad', M3 + '_calculate_normal_and_area_for_quad', [T4_3],
+  'Tup V3 S', 'Mesh', ['C01', 'C16'])
+K('mesh3d_get_tri_area', M3 + '_get_tri_area', [T3_3], 'S', 'Mesh', ['C01', 'C16'])
+K('mesh3d_tri_centroid', M3 + '_tri_centroid', [T3_3], 'V3', 'Mesh', ['C01', 'C16'])
+K('mesh3d_quad_centroid', M3 + '_quad_centroid', [T4_3], 'V3', 'Mesh', ['C01', 'C16'])
+K('mesh3d_face_center_quad', M3 + '_face_center', [T4_3], 'V3', 'Mesh', ['C20'])
+
+# ------------------------------------------------------------------ earcut predicates
+BPT = ('BP', 'triangulation:_Node')
+TRI = 'triangulation.'
+K('earcut_area', TRI + '_area', [p('p', BPT), p('q', BPT), p('r', BPT)], 'S', 'Tri', ['C05'])
+K('earcut_equals', TRI + '_equals', [p('p1', BPT), p('p2', BPT)], 'B', 'Tri', ['C05'])
+K('earcut_intersects', TRI + '_intersects',
+  [p('p1', BPT), p('q1', BPT), p('p2', BPT), p('q2', BPT)], 'B', 'Tri', ['C05'])
+K('earcut_point_in_triangle', TRI + '_point_in_triangle',
+  [S('ax'), S('ay'), S('bx'), S('by_'), S('cx'), S('cy'), S('px'), S('py')], 'B', 'Tri',
+  ['C05'])
+
+# ------------------------------------------------------------------ boolean point predicates
+BOOLP = ('BP', 'BooleanPoint')
+BO = 'boolean:BooleanPoint.'
+K('bool_collinear', BO + 'collinear', [p('p1', BOOLP), p('p2', BOOLP), p('p3', BOOLP),
+                                       S('tol', 'tol')], 'B', 'Bool', ['C04'])
+K('bool_compare', BO + 'compare', [p('p1', BOOLP), p('p2', BOOLP), S('tol', 'tol')], 'I',
+  'Bool', ['C04'])
+K('bool_point_above_or_on_line', BO + 'point_above_or_on_line',
+  [p('pt', BOOLP), p('left', BOOLP), p('right', BOOLP), S('tol', 'tol')], 'B', 'Bool',
+  ['C04'])
+K('bool_between', BO + 'between',
+  [p('pt', BOOLP), p('left', BOOLP), p('right', BOOLP), S('tol', 'tol')], 'B', 'Bool',
+  ['C04'])
+K('bool_is_equivalent', BO + 'is_equivalent', [p('a', BOOLP), p('b', BOOLP), S('tol', 'tol')],
+  'B', 'Bool', ['C04'])
+
+
 def all_kernels():
     import copy
     return copy.deepcopy(KERNELS)
